@@ -35,7 +35,7 @@ def make_prog(rnd, marker, nops):
         elif r < 0.7:
             ops.append(("derive", rnd.choice(STRS), rnd.choice(["div", "with_query", "with_host", "with_port", "with_path", "join", "origin",
                                                               "with_user", "parent", "with_fragment", "with_query_bigint", "with_query_floats", "update_query",
-                                                              "extend_query", "without_query_params", "mod", "relative", "with_name", "joinpath"])))
+                                                              "extend_query", "without_query_params", "mod", "relative", "with_name", "joinpath", "join_up"])))
         elif r < 0.85:
             # a component that needs quoting and whose quoted form is above / below 8 KiB, tagged with the thread's marker
             n = rnd.choice((50, 1400, 2800, 4200, 9000))
@@ -64,7 +64,7 @@ def run_op(yarl, op, facts):
     elif k == "derive":
         u = URL(op[1])
         f = {"div": lambda: u / "x y", "with_query": lambda: u.with_query(a="é", b="1 2"), "with_host": lambda: u.with_host("Straße.example"),
-             "with_port": lambda: u.with_port(8081), "with_path": lambda: u.with_path("/p/../q é"), "join": lambda: u.join(URL("../g?y#z")),
+             "with_port": lambda: u.with_port(8081), "with_path": lambda: u.with_path("/p/../q é"), "join": lambda: u.join(URL("s/t;p?y#z")), "join_up": lambda: u.join(URL("../g?y#z")),
              "origin": lambda: u.origin(), "with_user": lambda: u.with_user("ü:x"), "parent": lambda: u.parent,
              "with_fragment": lambda: u.with_fragment("frag ment"),
              # values whose rendering goes through interpreter-wide limits: an int beyond the str() digit limit (a ValueError, the same
@@ -210,6 +210,22 @@ TWO_BASE = ["join", "update_query", "with_path", "div", "joinpath", "with_query"
 READ_GROUPS = [["raw_host", "port", "str"], ["host_port_subcomponent", "authority", "parts", "name"], ["query", "query_string", "human_repr"]]
 
 
+def sizes_event(yarl, progs):
+    """every cache_configure() of a thread program sets the three sizes to ONE value: whatever the interleaving, once all threads
+    are done the three maxsizes are equal (a lost update between cache_clear() and cache_configure() would leave a mix) -- unless
+    several threads configure, since cache_configure() itself is three assignments"""
+    try:
+        ci = yarl.cache_info()
+        sizes = {ci[n].maxsize for n in ("idna_encode", "idna_decode", "encode_host")}
+        if sum(1 for p_ in progs if any(op[0] == "configure" for op in p_)) > 1:
+            sizes = {0}
+        ok = len(sizes) == 1 or sizes == {256, 512}
+        return {"kind": "cache-sizes", "facts": [{"k": "call:cache_sizes_uniform", "v": "true"},
+                                                 {"k": "call:cache_sizes_uniform", "v": "true" if ok else "false:" + str(sorted(map(str, sizes)))}]}
+    except Exception as e:  # noqa: BLE001
+        return {"kind": "cache-sizes", "facts": [], "crash": "cache_info():" + exc_name(e)}
+
+
 def systematic_pairs(yarl, be, root, seed, n_pairs, outdir, stride):
     """mode "sys1": for two-thread programs (one thread derives from a shared URL object, the other reads accessors of the
     SAME object for the first time -- or both derive, or both construct), EVERY schedule with exactly one pre-emption of
@@ -226,7 +242,10 @@ def systematic_pairs(yarl, be, root, seed, n_pairs, outdir, stride):
         templates.append((("derive", d), ("derive", d)))
     templates.append((("ctor",), ("ctor",)))
     for d in TWO_BASE:
-        templates.append((("derive", d), ("derive_other", d)))
+        # thread 0: the operation on receiver A, then on receiver B; thread 1 (run while thread 0 is suspended): on B
+        templates.append((("derive_ab", d), ("derive_b", d)))
+    templates.append((("clear",), ("configure", 16)))
+    templates.append((("configure", 2), ("clear",)))
     for d in ("with_query_bigint", "with_query_floats"):
         templates.append((("derive", d), ("ambient",)))
         templates.append((("derive", d), ("hugeport",)))
@@ -242,9 +261,14 @@ def systematic_pairs(yarl, be, root, seed, n_pairs, outdir, stride):
                 return [("derive", s_, op[1])]
             if op[0] == "read":
                 return [("read", s_, op[1])]
-            if op[0] == "derive_other":     # the same operation on ANOTHER receiver (and the first one again afterwards)
+            if op[0] in ("derive_ab", "derive_b"):
                 other = STRS[(STRS.index(base) + 2) % len(STRS)] if base in STRS else STRS[0]
-                return [("derive", other + ("&" if "?" in other else "?") + s_[-10:], op[1]), ("derive", s_, op[1])]
+                sb = other + ("&" if "?" in other else "?") + s_[-10:]
+                return [("derive", s_, op[1]), ("derive", sb, op[1])] if op[0] == "derive_ab" else [("derive", sb, op[1])]
+            if op[0] == "clear":
+                return [("clear",)]
+            if op[0] == "configure":
+                return [("configure", op[1])]
             if op[0] == "ambient":
                 return [("ambient",)]
             if op[0] == "hugeport":
@@ -265,10 +289,13 @@ def systematic_pairs(yarl, be, root, seed, n_pairs, outdir, stride):
             for t in (0, 1):                         # sequential reference on the same (fresh) string
                 run_prog(yarl, progs[t], t, "seq", events)
             clear_all_lru(yarl)
+            reset_caches(yarl)                       # ... and from the default cache sizes again
             per = [[], []]
             sch = Sched([0] * k + [1] * 100000, root)
             sch.run([lambda t=t: run_prog(yarl, progs[t], t, "sys1", per[t]) for t in (0, 1)])
             events += per[0] + per[1]
+            events.append(sizes_event(yarl, progs))
+            reset_caches(yarl)
             for i, ev in enumerate(events):
                 ev["id"] = f"{be}.sys1.{seed}.{ti}.{k}.{i}"
             allev += events
@@ -453,17 +480,7 @@ def main():
             for p in per:
                 events += p
             events.append({"kind": "schedule", "facts": [], "yields": s.yields, "preemptions": k})
-        # every cache_configure() of a thread program sets the three sizes to ONE value: whatever the interleaving, once all
-        # threads are done the three maxsizes are equal (a lost update between clear and configure would leave a mix)
-        try:
-            ci = yarl.cache_info()
-            sizes = {ci[n].maxsize for n in ("idna_encode", "idna_decode", "encode_host")}
-            if sum(1 for p_ in progs if any(op[0] == "configure" for op in p_)) > 1:
-                sizes = {0}        # several configuring threads: cache_configure() is three assignments, a mix is not excluded
-            events.append({"kind": "cache-sizes", "facts": [{"k": "call:cache_sizes_uniform", "v": "true"},
-                                                             {"k": "call:cache_sizes_uniform", "v": "true" if len(sizes) == 1 or sizes == {256, 512} else "false:" + str(sorted(map(str, sizes)))}]})
-        except Exception as e:  # noqa: BLE001
-            events.append({"kind": "cache-sizes", "facts": [], "crash": "cache_info():" + exc_name(e)})
+        events.append(sizes_event(yarl, progs))
         reset_caches(yarl)
         if HOUSEKEEPING:
             events.append({"kind": "housekeeping", "facts": [], "crash": "cache_configure():" + HOUSEKEEPING[0]})
